@@ -420,8 +420,13 @@ def check_c17(run):
 
     def corrupt(evs):     # the same instance handed to a second request while still held
         pops = [i for i, e in enumerate(evs) if e["ev"] == "pop"]
-        evs[pops[1]] = dict(evs[pops[1]], i=evs[pops[0]]["i"])
-        return evs
+        for a in pops:
+            for b in pops:
+                # a later pop of ANOTHER instance with nothing given back in between: the first instance is still held
+                if b > a and evs[b]["i"] != evs[a]["i"] and not any(e["ev"] in ("put", "push", "req_end") for e in evs[a:b]):
+                    evs[b] = dict(evs[b], i=evs[a]["i"])
+                    return evs
+        raise IndexError("no two overlapping pops in this recording")
     self_test(run, sessions[:25], corrupt, "good trace accepted; a second pop of an instance that is still held rejected")
     run.cov["evaluations"] = ns
     run.cov["distinct_nontrivial"] = len({json.dumps([s["min"], s["max"], s["script"]], sort_keys=True) for s in sessions})
@@ -591,7 +596,8 @@ def manage_session(sid, rec, rng):
                                      "ExecuteSelectedRulesConcurrent", "ExecuteDAGModel", "ExecuteMixModel", "ExecuteInverseMixModel"]))
         q += rec["max"]
         script.append({"op": "quiesce"})
-    return {"id": sid, "kind": "manage", "min": rec["min"], "max": rec["max"], "model": 1, "rules": V(1), "gated": True,
+    # the constructor's model varies: a model set later must replace it on every instance and entry point
+    return {"id": sid, "kind": "manage", "min": rec["min"], "max": rec["max"], "model": rng.choice([1, 2, 2, 3, 4]), "rules": V(1), "gated": True,
             "checkv": True, "script": script}
 
 
@@ -606,7 +612,7 @@ def check_c16(run):
     sessions = [manage_session(i + 1, r, rng) for i, r in enumerate(recs)]
     # longer random sequences on bigger pools
     ops = ["fullA", "fullB", "incrNew", "incrRepl", "incrSal", "removeHas", "removeAbsent", "removeNone", "removeTwo", "clear",
-           "model2", "model3", "model4", "model9", "badfull", "badincr"]
+           "model1", "model1", "model2", "model3", "model4", "model9", "badfull", "badincr"]
     for i in range(60 if quick else 1200):
         mn = rng.randint(1, 3)
         rec = {"min": mn, "max": mn + rng.randint(1, 3), "ops": [rng.choice(ops) for _ in range(rng.randint(3, 7))]}
